@@ -35,18 +35,19 @@
    are in LowerBoolProofs.v.  The tables compare_map and halt_inversion come from the REGENERATED
    Gen/GenTables.v, so the model prints what today's tables say. *)
 From Coq Require Import ZArith List Bool Lia String Ascii Decimal DecimalString.
-From HidV Require Import Machine GenTables OpTables.
+From HidV Require Import Machine AsmText GenTables GenEscape OpTables.
 Import ListNotations.
 Open Scope Z_scope.
 
 (* ---------- labels: add_label numbers each NAME separately ---------- *)
 Inductive lname := LCompareIsTrue | LCompareEnd | LLeftIsTrue | LAndEnd | LLeftIsFalse | LOrEnd
-                 | LIsTrue | LBoolEnd | LElse | LEndElse.
+                 | LIsTrue | LBoolEnd | LElse | LEndElse | LLoop | LContinue | LBreak.
 Definition lname_eqb (a b : lname) : bool :=
   match a, b with
   | LCompareIsTrue, LCompareIsTrue | LCompareEnd, LCompareEnd | LLeftIsTrue, LLeftIsTrue
   | LAndEnd, LAndEnd | LLeftIsFalse, LLeftIsFalse | LOrEnd, LOrEnd | LIsTrue, LIsTrue
-  | LBoolEnd, LBoolEnd | LElse, LElse | LEndElse, LEndElse => true
+  | LBoolEnd, LBoolEnd | LElse, LElse | LEndElse, LEndElse
+  | LLoop, LLoop | LContinue, LContinue | LBreak, LBreak => true
   | _, _ => false
   end.
 Definition label := (lname * nat)%type.
@@ -60,7 +61,9 @@ Definition add_label (nm : lname) (st : lstate) : label * lstate :=
 (* ---------- abstract assembly lines ---------- *)
 Inductive reg := RAp | RFp | R0 | R1 | R2 | RDefeat.     (* state words addressed by label *)
 (* an AssemblyExpression: IntLiteral, State(LabelRef of a register word), LabelRef of a code label *)
-Inductive sym := SLit (z : Z) | SReg (r : reg) | SLab (l : label).
+Inductive sym := SLit (z : Z) | SReg (r : reg) | SLab (l : label)
+               | SChar (c : Z)          (* IntLiteral(c, is_char=True), 0 <= c <= 255 *)
+               | SRegAddr (r : reg).    (* the LabelRef of a register word, as an immediate *)
 Inductive ains :=
 | AJump (t : sym)                    (* j t *)
 | AHaltI                             (* halt *)
@@ -68,6 +71,8 @@ Inductive ains :=
 | ALwso (d : reg) (b o : sym)        (* lwso [d], b, o *)
 | ALbso (d : reg) (b o : sym)        (* lbso [d], b, o *)
 | AArith (op : aop) (d : reg) (a b : sym)   (* add/sub/mul/.. [d], a, b *)
+| ALbs (d : reg) (a : sym)           (* lbs [d], a *)
+| AYield (v : sym)                   (* yield v *)
 | AMov (d : reg) (v : sym)           (* mov [d], v *)
 | ASwso (b o v : sym)                (* swso b, o, v *)
 | ASbso (b o v : sym).               (* sbso b, o, v *)
@@ -333,15 +338,20 @@ Definition lname_str (n : lname) : string :=
   | LLeftIsFalse => "left_is_false" | LOrEnd => "or_end"
   | LIsTrue => "is_true" | LBoolEnd => "bool_end"
   | LElse => "else" | LEndElse => "end_else"
+  | LLoop => "loop" | LContinue => "continue" | LBreak => "break"
   end.
 Definition label_str (l : label) : string := lname_str (fst l) ++ "_" ++ dec (Z.of_nat (snd l)).
 Definition reg_str (r : reg) : string :=
   match r with RAp => "ap" | RFp => "fp" | R0 => "r0" | R1 => "r1" | R2 => "r2" | RDefeat => "defeat" end.
+Fixpoint bytes_str (l : list Z) : string :=
+  match l with [] => EmptyString | b :: r => String (ascii_of_nat (Z.to_nat b)) (bytes_str r) end.
 Definition sym_str (s : sym) : string :=
   match s with
   | SLit z => dec z
   | SReg r => "[" ++ reg_str r ++ "]"
   | SLab l => label_str l
+  | SChar c => "'" ++ bytes_str (escape_byte [39] c) ++ "'"
+  | SRegAddr r => reg_str r
   end.
 Definition cond_str (c : cond) : string :=
   match c with
@@ -361,6 +371,8 @@ Definition print_ains (i : ains) : string :=
   | ALwso d b o => "lwso [" ++ reg_str d ++ "], " ++ sym_str b ++ ", " ++ sym_str o
   | ALbso d b o => "lbso [" ++ reg_str d ++ "], " ++ sym_str b ++ ", " ++ sym_str o
   | AArith o d a b => aop_str o ++ " [" ++ reg_str d ++ "], " ++ sym_str a ++ ", " ++ sym_str b
+  | ALbs d a => "lbs [" ++ reg_str d ++ "], " ++ sym_str a
+  | AYield v => "yield " ++ sym_str v
   | AMov d v => "mov [" ++ reg_str d ++ "], " ++ sym_str v
   | ASwso b o v => "swso " ++ sym_str b ++ ", " ++ sym_str o ++ ", " ++ sym_str v
   | ASbso b o v => "sbso " ++ sym_str b ++ ", " ++ sym_str o ++ ", " ++ sym_str v
@@ -389,7 +401,10 @@ Definition regaddr (R : regmap) (r : reg) : Z :=
 Definition hidc_regs (w d : Z) : regmap := mkregs 0 w (2 * w) (3 * w) (4 * w) d.
 
 Definition res_sym (R : regmap) (lab : label -> Z) (s : sym) : operand :=
-  match s with SLit z => Imm z | SReg r => St (regaddr R r) | SLab l => Imm (lab l) end.
+  match s with
+  | SLit z => Imm z | SReg r => St (regaddr R r) | SLab l => Imm (lab l)
+  | SChar c => Imm c | SRegAddr r => Imm (regaddr R r)
+  end.
 Definition res_ins (R : regmap) (lab : label -> Z) (i : ains) : instr :=
   let rs := res_sym R lab in
   match i with
@@ -399,6 +414,8 @@ Definition res_ins (R : regmap) (lab : label -> Z) (i : ains) : instr :=
   | ALwso d b o => ILoadO WWord SState (St (regaddr R d)) (rs b) (rs o)
   | ALbso d b o => ILoadO WByte SState (St (regaddr R d)) (rs b) (rs o)
   | AArith o d a b => IArith o (St (regaddr R d)) (rs a) (rs b)
+  | ALbs d a => ILoad WByte SState (St (regaddr R d)) (rs a)
+  | AYield v => IYield (rs v)
   | AMov d v => IMov (St (regaddr R d)) (rs v)
   | ASwso b o v => IStoreO WWord (rs b) (rs o) (rs v)
   | ASbso b o v => IStoreO WByte (rs b) (rs o) (rs v)
